@@ -248,6 +248,7 @@ def run(chk: Check, only_numeric: bool = False) -> None:
         else:
             r2.ok(key2, where, f"C returns {sorted(rets)[:4]}")
     chk.extra["macro_bound"] = n_macro
+    run_operator_names(chk, sites, only_numeric)
     # ---- error value overlap
     r7 = chk.rule("R05.7" if not only_numeric else "R15.5", "a primitive whose result type has no spare value to signal an error (RPrimitive(..., error_overlap=True): fixed-width native ints, float) never declares ERR_MAGIC: the error value of such a type (-113, -113.0) is also a legal result, so the generated code must confirm with PyErr_Occurred() (ERR_MAGIC_OVERLAPPING) or the C function must not fail (ERR_NEVER); with plain ERR_MAGIC `x % y == -113` branches to the error handler with no exception set", floor=45 if not only_numeric else 45)
     rt = ix.module("mypyc.ir.rtypes")
@@ -562,3 +563,43 @@ def run_silent_errors(chk: Check, ix, funcs, sites) -> None:
             r9.violation(key, where, f"{cname} returns its error value at line {', '.join(map(str, lines))} of its C body on a path with no call that could have set an exception")
         else:
             r9.ok(key, where)
+
+
+OPERATOR_WORDS = {
+    "+": {"Add", "Concat", "Positive", "Append"}, "-": {"Subtract", "Negate", "Negative"}, "*": {"Multiply", "RMultiply"},
+    "/": {"TrueDivide"}, "//": {"FloorDivide"}, "%": {"Remainder"}, "**": {"Power"}, "@": {"MatrixMultiply"},
+    "&": {"And"}, "|": {"Or"}, "^": {"Xor"}, "<<": {"Lshift"}, ">>": {"Rshift"}, "~": {"Invert"}, "in": {"Contains"},
+}
+COMPARISONS = {"==", "!=", "<", "<=", ">", ">="}
+
+
+def run_operator_names(chk: Check, sites, only_numeric: bool) -> None:
+    """R05.10 / R15.6: the C function bound to an operator is the one for that operator."""
+    r = chk.rule("R05.10" if not only_numeric else "R15.6", "a primitive registered under an operator spelling (`<<`, `//=`, ...) is bound to the C function whose name carries that operator's word (CPyTagged_Lshift, PyNumber_InPlaceFloorDivide, ...; table of words in sa/rules/c05.py, from the CPython number/sequence protocol names): a plain operator is not bound to an InPlace function, and no operator is bound to another operator's function (`>>` to CPyTagged_Lshift)", floor=60 if not only_numeric else 20)
+    seen = set()
+    for m, call, kw, cname in sites:
+        nm = kw.get("name")
+        if not (isinstance(nm, ast.Constant) and isinstance(nm.value, str)):
+            continue
+        op = nm.value
+        inplace = op.endswith("=") and op not in COMPARISONS
+        base = op[:-1] if inplace else op
+        if base not in OPERATOR_WORDS:
+            continue
+        if only_numeric and m.name not in ("mypyc.primitives.int_ops", "mypyc.primitives.float_ops"):
+            continue
+        word = cname.split("_", 1)[1] if "_" in cname else cname
+        key = f"{m.name}: `{op}` -> {cname}"
+        if key in seen:
+            continue
+        seen.add(key)
+        where = f"{m.relpath}:{call.lineno}"
+        has_inplace = word.startswith("InPlace")
+        core = word[len("InPlace"):] if has_inplace else word
+        if core not in OPERATOR_WORDS[base]:
+            other = sorted(o for o, ws in OPERATOR_WORDS.items() if core in ws)
+            r.violation(key, where, f"operator `{op}` is bound to {cname}" + (f", the function for `{other[0]}`" if other else f" (`{core}` is not a word for `{base}`)"))
+        elif has_inplace and not inplace:
+            r.violation(key, where, f"the plain operator `{op}` is bound to the in-place function {cname}: `a {op} b` would modify `a`")
+        else:
+            r.ok(key, where)
